@@ -551,13 +551,21 @@ def rule_r3(repo: Repo, res: Result) -> None:
         want_root = [("item", ("attr", root, "name"))]
         # the general form without suffix removal, used only when the path is the root (its relative path has no parts), is the root's name
         tests0 = _root_tests(sx, [g for g, _ in alts], rel, root)
-        unsuffixed = canon([("parts", rel)] if base_loc[0] == "PARENT" else [("item", ("attr", root, "name")), ("parts", rel)])
+        unsuffixed = [canon([("parts", rel)] if base_loc[0] == "PARENT" else [("item", ("attr", root, "name")), ("parts", rel)])]
+        if base_loc[0] != "PARENT":
+            # `[root.name, *rel.parts[:-1]]`, `[root.name, *rel.parent.parts]`: the empty relative path has no parts, and neither
+            # has its parent (`Path('.').parent` is `Path('.')`); no suffix removal and no `.stem` / `.name` component (both would
+            # fail on / append an empty component for the empty path)
+            up = rel
+            for _k in range(3):
+                up = ("PARENT", up)
+                unsuffixed.append(canon([("item", ("attr", root, "name")), ("parts", up)]))
 
         def names_root(g: Formula, v: Term) -> bool:
             d_ = dotted(v)
             if d_ == want_root:
                 return True
-            if d_ != unsuffixed or not tests0 or g == TRUE:
+            if d_ not in unsuffixed or not tests0 or g == TRUE:
                 return False
             g_ = rename_atoms(g, lambda k: (atom("ROOT") if tests0[k] else f_not(atom("ROOT"))) if k in tests0 else None)
             return implies(g_, atom("ROOT"))
@@ -911,6 +919,9 @@ class _Names:
                 return
             from .c04_symx import map_children
 
+            if x[0] == "slice":
+                visit(x[1])  # `name[:n]`: the bounds of a slice are positions, they contribute no characters of a name
+                return
             map_children(x, lambda y: (visit(y), y)[1])
 
         visit(t)
@@ -941,9 +952,11 @@ def _is_presence_test(t: Term | None, x: Term, graph: Term) -> bool:
     """`x in graph` / `graph.has_node(x)` (also on `graph.nodes`)."""
     if t is None:
         return False
-    if t[0] == "cmp" and t[1] == "in" and t[2] == x:
+    # a test on a chosen name (`raw if limit is None else flattened`) is made alternative by alternative
+    same = (x,) + (tuple(v for _g, v in x[1]) if x[0] == "phi" else ())
+    if t[0] == "cmp" and t[1] == "in" and t[2] in same:
         return any(y[:2] == graph[:2] for y in subterms(t[3]))
-    if t[0] == "mcall" and t[2] == "has_node" and t[3] == (x,):
+    if t[0] == "mcall" and t[2] == "has_node" and len(t[3]) == 1 and t[3][0] in same:
         return t[1][:2] == graph[:2]
     return False
 
